@@ -44,3 +44,53 @@ Definition chk_exchange (c : list pystr * option (list pystr) * list pystr * boo
   end.
 Definition chk_cc (c : option (list pystr) * list pystr) : bool :=
   list_eqb str_eqb (client_credentials_scope (fst c)) (snd c).
+
+(* ---- the authorization endpoint on a request that may name resources (RFC 8707 `resource`), any response type ----
+   Authorization._post_parse_request -> validate_resource_indicators_policy (server/oauth2/authorization.py),
+   AuthzHandling.__call__ (grant.scope), Authorization.create_authn_response (what is minted, and the response's `scope`).
+   requested: the request's scope; allowed: Scopes.get_allowed_scopes(client);
+   permitted: None when no resource-indicator policy applies to the request; Some p when the policy ran: p is the
+     concatenation of the allowed_scopes lists of the permitted resources the request names and of the client itself
+     (the policy cuts the REQUEST's scope down to p before anything else sees it);
+   rscopes: the concatenation of the `scope` lists registered for the client-database entries the (rewritten) resource
+     parameter names.
+   Everything goes through Python sets: results are compared as sets. *)
+Record authz_art := mkArt {
+  a_grant : list pystr;        (* grant.scope *)
+  a_code : list pystr;         (* scope of the code, if the response type has `code` *)
+  a_access : list pystr;       (* scope of the access token minted by the authorization endpoint (`token`) *)
+  a_idtoken : list pystr;      (* scope of the ID Token minted by the authorization endpoint (`id_token`) *)
+  a_response : list pystr }.   (* the `scope` parameter of the authorization response *)
+Definition authz_effective (requested : list pystr) (permitted : option (list pystr)) : list pystr :=
+  match permitted with
+  | None => requested
+  | Some p => dedup (List.filter (fun x => str_in x p) requested)
+  end.
+Definition authz_decide (requested allowed : list pystr) (permitted : option (list pystr)) (rscopes : list pystr) : authz_art :=
+  let eff := authz_effective requested permitted in
+  let g := List.filter (fun x => str_in x allowed) eff in
+  (* every mint_token call of create_authn_response leaves the scope to Grant.mint_token: the grant's *)
+  mkArt g g g g (List.filter (fun x => str_in x allowed) (dedup (eff ++ rscopes))).
+
+(* AccessTokenHelper.process_request (OAuth2) when a resource-indicator policy is configured for the token endpoint:
+   the policy cuts the scope parameter OF THE TOKEN REQUEST (absent: nothing) down to the named resources' allowed
+   scopes and the response states that; the access token is minted with the grant's scope. *)
+Definition token_ri_statement (treq permitted : list pystr) : list pystr :=
+  dedup (List.filter (fun x => str_in x permitted) treq).
+Definition token_ri_token (gscope : list pystr) : list pystr := gscope.
+
+(* ---- checkers ---- *)
+Definition opt_set_ok (expected : list pystr) (observed : option (list pystr)) : bool :=
+  match observed with Some o => set_eqb expected o | None => true end.
+(* (requested, allowed, permitted, rscopes), observed: grant scope, code / access token / ID Token scope where minted,
+   the response's scope *)
+Definition chk_authz (c : list pystr * list pystr * option (list pystr) * list pystr *
+                          (list pystr * option (list pystr) * option (list pystr) * option (list pystr) * list pystr)) : bool :=
+  let '(requested, allowed, permitted, rscopes, (og, oc, oa, oi, orsp)) := c in
+  let r := authz_decide requested allowed permitted rscopes in
+  set_eqb (a_grant r) og && opt_set_ok (a_code r) oc && opt_set_ok (a_access r) oa && opt_set_ok (a_idtoken r) oi
+  && set_eqb (a_response r) orsp.
+(* (grant scope, scope parameter of the token request, permitted), observed: token scope, response scope *)
+Definition chk_token_ri (c : list pystr * list pystr * list pystr * (list pystr * list pystr)) : bool :=
+  let '(gscope, treq, permitted, (ot, orsp)) := c in
+  set_eqb (token_ri_token gscope) ot && set_eqb (token_ri_statement treq permitted) orsp.
